@@ -338,7 +338,8 @@ def check(ctx):
                         '_pv_list_length' in nmf.s(cf_[1]) and cf_[2] == '<'
                 else:
                     whole = rng is not None and lp is rng[0] and '_pv_list_length' in rng[1] and ('_pv_list.data()' in rng[1] or '_pv_list.begin()' in rng[1])
-                init_ok = any(x['k'] == 'VarDecl' and x.get('id') == r['id'] and kids(x) and '_position' in nmf.s(kids(x)[0]) and
+                # the copy starts as the position the PV starts from: the root for the root's PV, the node's own position for a node's
+                init_ok = any(x['k'] == 'VarDecl' and x.get('id') == r['id'] and kids(x) and nmf.s(kids(x)[0]) in ('_position', 'position') and
                               not f.inside(x, lp) for x in f.all_nodes())
                 argk = Norm(f, inline=False).s(kids(n)[1])
                 adv = [m for m, c2, nm2 in f.calls() if nm2 == 'engine::Position::do_move' and f.inside(m, lp) and
